@@ -30,7 +30,11 @@ def replaceMatch(match: Match, replacement: str, expand: Optional[Expand] = None
             return ''
         result = match[i] or ''  # A group that did not participate in the match is blank.
         # match group text.
-        return replaceInline(result, expand)
+        result = replaceInline(result, expand)
+        if not expand.spans:
+            # The group may be injected into a double-quoted HTML attribute value.
+            result = result.replace('"', '&quot;')
+        return result
     return re.sub(r'(\${1,2})(\d)', repl, replacement)
 
 
